@@ -44,7 +44,7 @@ PROPS["C01"] = {
 }
 
 PROPS["C02"] = {
-    "legs": [rapid("bound", "pstree", "TestC02Bound", 8, 200, 16, 5000),
+    "legs": [rapid("bound", "pstree", "TestC02Bound", 8, 1500, 16, 40000),
              plain("newheight", "pstree", "TestC02NewHeights")],
     "rule": "leg bound: histories as in C01 plus an adaptive adversary op that inserts a fresh key directly beneath a "
             "deepest leaf (located by a cursor walk); beta in [0,999]; trees up to 2000 nodes; after EVERY single "
@@ -75,7 +75,8 @@ PROPS["C03"] = {
 }
 
 PROPS["C04"] = {
-    "legs": [rapid("hist", "pstree", "TestC04Hist", 4, 4000, 16, 250000)],
+    "legs": [rapid("hist", "pstree", "TestC04Hist", 4, 4000, 16, 250000),
+             rapid("float", "pstree", "TestC04Float", 2, 2000, 4, 100000)],
     "rule": "histories of <=50(+9) ops on two copies of one omap.Map value (ops alternate between the copies): "
             "Set/Delete/Clear/Get/GetOK on present, absent-below, absent-above and absent-inside keys; iterator "
             "programmes First/Last/Seek(k)/Iter.Seek(k) followed by Next/Prev walks, the documented "
@@ -84,7 +85,12 @@ PROPS["C04"] = {
             "String on both copies, a full First..Next and Last..Prev sweep, and the tracked iterator's "
             "IsValid/Key/Value against a sorted reference (an iterator is only used while no edit happened since it "
             "was positioned, as the package doc requires). NON-TRIVIAL iff a Seek to an absent key strictly inside the "
-            "key range is followed by a Prev on a map that has seen a Delete. Distinct = hash of the case JSON.",
+            "key range is followed by a Prev on a map that has seen a Delete. Three iterator slots are alive at the same "
+            "time (every synchronised one is checked after every op); op staleProbe = Get(s), Delete a neighbour of s, "
+            "Set(s,new), Get(s). leg float: omap.New[float64,int] (natural order) with keys NaN (two payloads), +-Inf, "
+            "-0.0, 0.0 and ordinary values; Set/Delete/GetOK/Seek, Len, Keys and a First..Next sweep after every op against "
+            "a reference ordered by cmp.Compare (NaN equals itself and sorts first, -0 equals +0); non-trivial = a NaN key "
+            "was used in a history of >=4 ops. Distinct = hash of the case JSON.",
     "assumptions": COMMON_ASSUME + ["under the k/2 comparator only comparator-equivalence of reported keys is required, not which representative is stored"],
 }
 
@@ -214,7 +220,8 @@ PROPS["C08"] = {
 PROPS["C09"] = {
     "legs": [plain("conc", "pcache", "TestC09Conc", race=True,
                    shards={"quick": 4, "thorough": 16},
-                   env={"quick": {"VK_C09_WORKLOADS": "400"}, "thorough": {"VK_C09_WORKLOADS": "20000"}})],
+                   env={"quick": {"VK_C09_WORKLOADS": "400"}, "thorough": {"VK_C09_WORKLOADS": "20000"}}),
+             plain("bigclear", "pcache", "TestC09BigClear", race=True, shards={"quick": 2, "thorough": 8})],
     "rule": "workloads are drawn as data by a rapid generator (Example seeds derived from VERIF_SEED and the shard): 2-4 "
             "goroutines x 4-12 calls of Has/Get/Put/Remove/Len/Size/Clear over keys 0..3, unique values of size 1-3, "
             "limit 3-5 (at most 5 entries, so known finding F2 cannot be exposed and the sequential specification is the "
@@ -231,7 +238,12 @@ PROPS["C09"] = {
             "Mutex.Lock inside cache methods) reports a deadlock. evaluations = executions; NON-TRIVIAL (counted per "
             "distinct workload) iff in some stamped execution two calls of different goroutines overlapped in real time on "
             "the same key or a Put that evicted overlapped another call. A checker timeout counts as inconclusive, never "
-            "as a violation.",
+            "as a violation. leg bigclear: caches of 7..513 unit entries (Put of fresh keys, Has, Len, Size and Clear never "
+            "remove from the interior of the recency heap, so F2 stays unexposed): N entries are stored, then ONE Clear "
+            "runs against 1-3 reader goroutines; every Len/Size/Has observation must be the state before the Clear or the "
+            "state after it, a reader that saw 'after' (or started after Clear returned) must never see 'before', and the "
+            "callback must report each entry exactly once; evaluations = executions, non-trivial = executions in which a "
+            "reader saw both states (counted, not deduplicated: executions are not reproducible).",
     "assumptions": COMMON_ASSUME + [
         "the Go scheduler is not owned by the harness: interleavings are sampled, not enumerated; a defect that needs one specific preemption inside a few instructions can be missed",
         "the Go race detector reports only races that occur in an execution",
